@@ -78,9 +78,7 @@ Proof.
   apply andb_true_iff in H as [H _]. set (s := c :: u) in *. clearbody s.
   induction s as [|x s IH]; [reflexivity|]. cbn [forallb] in H. apply andb_true_iff in H as [Hx Hs].
   cbn [find_chr]. unfold uri_char_ok in Hx. apply andb_true_iff in Hx as [_ Hx].
-  apply negb_true_iff in Hx. unfold mem in Hx. cbn [existsb] in Hx.
-  repeat (apply orb_false_iff in Hx as [? Hx]).
-  unfold c_rbrace in *. destruct (x =? 125) eqn:E; [congruence|]. rewrite (IH Hs). reflexivity.
+  apply negb_true_iff in Hx. rewrite Hx. rewrite (IH Hs). reflexivity.
 Qed.
 
 (* ------------------------------------------------------------------ Clark notation round trip *)
